@@ -36,6 +36,7 @@ from C19sym import FsModel, ROOT, outcome_of, Abandon  # noqa: E402
 
 RANGE_RS = "crates/s3s/src/dto/range.rs"
 I64MAX = 2 ** 63 - 1
+UNIT = rsx.UNIT
 U64MAX = 2 ** 64 - 1
 
 
@@ -619,11 +620,295 @@ def part_order(prog):
     return findings, {"paths": len(paths), "successful": n_ok}
 
 
+# ---- L: listings over a symbolic directory tree -------------------------------------------------------------------------------------------------
+def PV(comps):
+    return Struct("__P", {"comps": ListV(list(comps))})
+
+
+class ListModel(StoreModel):
+    """StoreModel + a bounded symbolic directory tree, path values as component lists, strings as piece lists, keys ordered by an
+    uninterpreted total order (z3 integers)"""
+
+    def __init__(self, prog):
+        super().__init__(prog, "list_objects_v2")
+        self.ex.binop_hook = self.binop_hook
+        self.tree = {}
+        self.ords = {}
+        self._distinct = set()
+
+    def key_id(self, s):
+        s = deref(s)
+        if isinstance(s, Struct) and s.name == "__String":
+            return "|".join(vkey(x) for x in s.fields["pieces"].elems)
+        if isinstance(s, Term):
+            return vkey(s)
+        if isinstance(s, str):
+            return "lit:" + s
+        raise Unsupported("string value %r" % (s,))
+
+    def ord(self, s):
+        k = self.key_id(s)
+        if k not in self.ords:
+            self.ords[k] = z3.Int("ord!" + k)
+            if k != "start_after":
+                # different files have different keys (a directory holds each name once); the marker may coincide with a key
+                for k2, v2 in self.ords.items():
+                    if k2 not in (k, "start_after") and (k, k2) not in self._distinct:
+                        self._distinct.add((k, k2))
+                        self._distinct.add((k2, k))
+                        self.ex.add_axiom(self.ords[k] != v2)
+        return self.ords[k]
+
+    def binop_hook(self, ex, op, l, r):
+        strs = lambda v: (isinstance(v, Struct) and v.name == "__String") or (isinstance(v, Term) and v.op in ("start_after",)) or isinstance(v, str)   # noqa: E731
+        if op in ("<", "<=", ">", ">=") and strs(l) and strs(r) and not (isinstance(l, str) and isinstance(r, str)):
+            a, b = self.ord(l), self.ord(r)
+            return Z({"<": a < b, "<=": a <= b, ">": a > b, ">=": a >= b}[op])
+        return NotImplemented
+
+    def macro_hook(self, ex, path, node, env):
+        p = path.split("::")[-1]
+        if p == "format" and node.get("args") and len(node["args"]) == 2:
+            lit = node["args"][0]
+            if lit.get("k") == "Lit" and lit.get("v", lit.get("value")) == "{}":
+                return Struct("__Shown", {"of": deref(ex.expr(node["args"][1], env))})
+        return super().macro_hook(ex, path, node, env)
+
+    def call_hook(self, ex, path, args, node):
+        segs = path.split("::")
+        np = "::".join(segs[-2:])
+        a = [deref(x) for x in args]
+        if segs[-1] == "default" and len(segs) <= 3:
+            hint = (ex.type_hint or "").replace(" ", "")
+            if hint.startswith("Vec<") or hint.startswith("VecDeque<"):
+                return ListV([])
+        if np == "String::new":
+            return Struct("__String", {"pieces": ListV([])})
+        if np == "fs::read_dir" and isinstance(a[0], Struct) and a[0].name == "__P":
+            self.ev("fs.read_dir", a[0])
+            k = vkey(a[0])
+            if k not in self.tree:
+                raise Unsupported("read_dir of a directory outside the symbolic tree: " + k)
+            return ok(Struct("__Dir", {"entries": ListV(list(self.tree[k])), "pos": [0]}))
+        return super().call_hook(ex, path, args, node)
+
+    def method_hook(self, ex, recv, name, args, node):
+        r = deref(recv)
+        a = [deref(x) for x in args]
+        if isinstance(r, Struct) and r.name == "FileSystem" and name == "get_bucket_path":
+            return ok(PV([Term("ROOT"), a[0]]))
+        if isinstance(r, Struct) and r.name == "__P":
+            if name == "exists":
+                return True
+            if name in ("clone", "as_ref", "to_path_buf", "as_path", "to_owned"):
+                return r
+            if name == "strip_prefix":
+                base = deref(a[0]).fields["comps"].elems
+                mine = r.fields["comps"].elems
+                if [vkey(x) for x in mine[:len(base)]] != [vkey(x) for x in base]:
+                    return err(Term("StripPrefixError"))
+                return ok(PV(mine[len(base):]))
+            if name == "components":
+                return ListV([Variant("Component::Normal", [Struct("__OsStr", {"s": c})]) for c in r.fields["comps"].elems])
+            if name == "display":
+                return r
+            raise Unsupported("path method .%s in the listing model" % name)
+        if isinstance(r, Struct) and r.name == "__OsStr" and name == "to_str":
+            return some(r.fields["s"])
+        if isinstance(r, Struct) and r.name == "__String":
+            if name == "push_str":
+                r.fields["pieces"].elems.append(a[0])
+                return UNIT
+            if name == "cmp":
+                x, y = self.ord(r), self.ord(a[0])
+                if ex.decide(x < y):
+                    return Variant("Ordering::Less")
+                if ex.decide(x == y):
+                    return Variant("Ordering::Equal")
+                return Variant("Ordering::Greater")
+            if name in ("as_str", "clone", "as_ref", "to_owned"):
+                return r
+        if isinstance(r, Struct) and r.name == "__Dir" and name == "next_entry":
+            i = r.fields["pos"][0]
+            es = r.fields["entries"].elems
+            if i >= len(es):
+                return ok(none())
+            r.fields["pos"][0] = i + 1
+            return ok(some(es[i]))
+        if isinstance(r, Struct) and r.name == "__Entry":
+            if name == "file_type":
+                return ok(Struct("__FT", {"dir": r.fields["is_dir"]}))
+            if name == "path":
+                return r.fields["path"]
+            if name == "metadata":
+                return ok(Struct("__Meta", {"path": r.fields["path"]}))
+        if isinstance(r, Struct) and r.name == "__FT" and name in ("is_dir", "is_file"):
+            return r.fields["dir"] if name == "is_dir" else (not r.fields["dir"])
+        if isinstance(r, Struct) and r.name == "__Meta" and name == "len":
+            return self.int("size!" + vkey(r.fields["path"]), I64MAX)      # file sizes fit an off_t
+        if isinstance(r, Struct) and r.name == "__Meta" and name == "modified":
+            return ok(Term("mtime", vkey(r.fields["path"])))
+        if isinstance(r, ListV):
+            if name == "push_back":
+                r.elems.append(args[0])
+                return UNIT
+            if name == "pop_front":
+                return some(r.elems.pop(0)) if r.elems else none()
+            if name == "sort_by":
+                out = []
+                for x in r.elems:            # insertion sort driven by the real comparison closure
+                    i = len(out)
+                    while i > 0:
+                        o = deref(ex.call_value(args[0], [x, out[i - 1]], node))
+                        if isinstance(o, Variant) and o.name.endswith("Less"):
+                            i -= 1
+                        else:
+                            break
+                    out.insert(i, x)
+                r.elems[:] = out
+                return UNIT
+            if name == "skip_while":
+                i = 0
+                while i < len(r.elems) and ex.decide(ex.truth(ex.call_value(args[0], [r.elems[i]], node))):
+                    i += 1
+                return ListV(r.elems[i:])
+            if name == "collect":
+                return r
+        if isinstance(r, Term) and r.op == "prefix":
+            if name == "split":
+                return Term("prefix_split", r)
+        if isinstance(r, Term) and r.op == "prefix_split" and name == "collect":
+            return Struct("__PrefixPath", {})
+        if isinstance(r, Struct) and r.name == "__PrefixPath" and name == "display":
+            return r
+        if isinstance(r, Struct) and r.name == "__Shown" and name == "starts_with":
+            key, pre = deref(r.fields["of"]), deref(a[0])
+            if isinstance(key, Struct) and key.name == "__P" and isinstance(pre, Struct) and pre.name == "__Shown" and deref(pre.fields["of"]).name == "__PrefixPath":
+                kid = "|/|".join(vkey(c) for c in key.fields["comps"].elems)
+                return Z(ex.bool_of(Term("has_prefix", kid)))
+            raise Unsupported("starts_with on %r / %r" % (key, pre))
+        if isinstance(r, Term) and r.op == "start_after" and name == "as_str":
+            return r
+        return super().method_hook(ex, recv, name, args, node)
+
+
+def listings(prog):
+    """L: list_objects_v2 on every directory tree of the bound: exactly the keys that have the prefix and lie after the marker, ascending"""
+    m = ListModel(prog)
+    ex = m.ex
+    ex.loop_bound = 12
+    fn = prog.find_method("FileSystem", "list_objects_v2")
+    findings = {}
+
+    def body(m):
+        m.reset()
+        m.tree = {}
+        m.ords = {}
+        bucket = Term("bucket")
+        top = PV([Term("ROOT"), bucket])
+        files = []
+
+        def gen(dirp, depth, tag):
+            n = m.choose("n_entries:" + tag, 3)
+            es = []
+            for i in range(n):
+                name = Term("n", tag + str(i))
+                path = PV(list(dirp.fields["comps"].elems) + [name])
+                is_dir = depth < 1 and ex.decide(ex.bool_of(Term("is_dir", tag + str(i))))
+                es.append(Struct("__Entry", {"path": path, "is_dir": is_dir}))
+                if is_dir:
+                    gen(path, depth + 1, tag + str(i) + ".")
+                else:
+                    files.append(path)
+            m.tree[vkey(dirp)] = es
+        gen(top, 0, "")
+        has_prefix = ex.decide(ex.bool_of(Term("has_prefix_arg")))
+        has_marker = ex.decide(ex.bool_of(Term("has_marker_arg")))
+        inp = Struct("ListObjectsV2Input", {"bucket": bucket, "delimiter": none(), "encoding_type": none(),
+                                            "prefix": some(Term("prefix")) if has_prefix else none(),
+                                            "start_after": some(Term("start_after")) if has_marker else none()})
+        fs = Struct("FileSystem", {"root": Term("abs", "ROOT"), "tmp_file_counter": Struct("__Atomic", {})})
+        req = Struct("S3Request", {"input": inp, "credentials": Term("opt_credentials")})
+        ex.notes.append(("files", [[vkey(c) for c in f.fields["comps"].elems[2:]] for f in files], has_prefix, has_marker))
+        try:
+            r = ex.call_fn(fn, [fs, req], "s3", self_ty="FileSystem")
+            out = ("ret", r)
+        except rsx.PanicSig as p:
+            out = ("panic", p.what)
+        ex.notes.append(("ords", dict(m.ords)))
+        return TupleV([out[0], out[1] if out[0] == "ret" else json.dumps(out[1])])
+    m.root = body
+    paths = ex.explore(ROOT, [], "s3")
+    n_checked, max_files = 0, 0
+    for p in paths:
+        o, pay = outcome_of(p)
+        files, has_prefix, has_marker = [n[1:] for n in p.notes if isinstance(n, tuple) and n[0] == "files"][-1]
+        ords = [n[1] for n in p.notes if isinstance(n, tuple) and n[0] == "ords"][-1]
+        if o != "ok":
+            findings.setdefault("listing:refused", ("list_objects_v2 of an existing bucket ends with %s (%s)" % (o, pay), {"files": files}))
+            continue
+        out = deref(deref(pay).fields["output"])
+        contents = deref(deref(out.fields["contents"]).payload[0]).elems
+        listed = []
+        for obj in contents:
+            ks = deref(deref(deref(obj).fields["key"]).payload[0])
+            listed.append([vkey(x) for x in ks.fields["pieces"].elems])
+        # expected key text of a file: its components joined by the delimiter "/"
+        def text(comps):
+            out_ = []
+            for i, c in enumerate(comps):
+                if i:
+                    out_.append('"/"')
+                out_.append(c)
+            return out_
+        want_all = [text(f) for f in files]
+        max_files = max(max_files, len(files))
+        n_checked += 1
+        sol = ex.solver
+
+        def entailed(c):
+            sol.push()
+            sol.add(*p.pc)
+            sol.add(z3.Not(c))
+            r = sol.check()
+            sol.pop()
+            return r == z3.unsat
+        ordv = lambda t: ords.get("|".join(t), z3.Int("ord!" + "|".join(t)))      # noqa: E731
+        marker = ords.get("start_after", z3.Int("ord!start_after"))
+        ctx = ("prefix+start-after" if has_prefix and has_marker else "prefix" if has_prefix else "start-after" if has_marker else "plain")
+        for t in listed:
+            if t not in want_all:
+                findings.setdefault("listing:foreign-key:%s" % ctx, ("listed key %s is not the '/'-joined path of a file of the bucket" % t, {"files": files}))
+        for f, t in zip(files, want_all):
+            cond = []
+            if has_prefix:
+                cond.append(ex.bool_of(Term("has_prefix", "|/|".join(f))))
+            if has_marker:
+                cond.append(ordv(t) > marker)
+            c = z3.And(*cond) if cond else z3.BoolVal(True)
+            inside = t in listed
+            if inside and not entailed(c):
+                findings.setdefault("listing:extra-key:%s" % ctx, ("a key is listed although it lacks the prefix or does not lie after the marker", {"files": files, "listed": listed}))
+            if not inside and not entailed(z3.Not(c)):
+                findings.setdefault("listing:missing-key:%s" % ctx, ("a key that has the prefix and lies after the marker is not listed", {"files": files, "listed": listed}))
+        if len(set(map(tuple, listed))) != len(listed):
+            findings.setdefault("listing:duplicate:%s" % ctx, ("a key is listed twice", {"listed": listed}))
+        for x, y in zip(listed, listed[1:]):
+            if not entailed(ordv(x) < ordv(y)):
+                findings.setdefault("listing:order:%s" % ctx, ("the listing is not in ascending key order", {"listed": listed}))
+        kc = deref(deref(out.fields["key_count"]).payload[0])
+        if kc != len(listed):
+            findings.setdefault("listing:key-count", ("KeyCount %r for %d listed keys" % (kc, len(listed)), {}))
+    if n_checked == 0 or max_files < 3:
+        raise Inconclusive("listing: vacuous exploration (%d paths, at most %d files)" % (n_checked, max_files))
+    return findings, {"paths": len(paths), "checked": n_checked, "max_files": max_files, "queries": ex.queries}
+
+
 if __name__ == "__main__":
     prog = load_program()
     which = sys.argv[1] if len(sys.argv) > 1 else "R"
     t0 = time.time()
-    f, st = {"R": ranged_reads, "O": ownership, "S": side_files, "M": part_order, "V": verify_fn, "P": bucket_provenance}[which](prog)
+    f, st = {"R": ranged_reads, "O": ownership, "S": side_files, "M": part_order, "V": verify_fn, "P": bucket_provenance, "L": listings}[which](prog)
     print(st, round(time.time() - t0, 1))
     for k, (w, sc) in f.items():
         print(k, "\n    ", w, "\n    ", json.dumps(sc)[:300])
